@@ -502,6 +502,8 @@ def own_inlinable(name):
 # (scanner, 'some'|'ok') -> predicate of /verif/spec/predicates.abnf
 SCANNER_PREDICATES = {
     ('common::parse::find_scheme', 'some'): 'has-scheme',
+    ('common::parse::find_fragment', 'ok'): 'has-fragment',
+    ('common::parse::find_query', 'ok'): 'has-query',
 }
 
 
